@@ -105,64 +105,124 @@ if spec.get("state_only"):
     sys.stdout.write(json.dumps({"state": dump_state(), "pid": os.getpid(), "results": [], "log": []}) + "\n")
     sys.stdout.flush()
     sys.exit(0)
-pre_state = dump_state() if spec.get("pre_state") else None
-results = []
-cbs = {None: None, "valid": expires_after(days=1000), "invalid": expires_after(seconds=0)}
-try:
-    mem = Memory(LOC, verbose=0, compress=spec.get("compress", False))
-    cf = mem.cache(vmod.f, cache_validation_callback=cbs[spec.get("cb")])
-    for act in spec["actions"]:
-        a = act["a"]
-        del vmod.CALLS[:]
+def run_session(spec):
+    pre_state = dump_state() if spec.get("pre_state") else None
+    results = []
+    cbs = {None: None, "valid": expires_after(days=1000), "invalid": expires_after(seconds=0)}
+    try:
+        mem = Memory(LOC, verbose=spec.get("verbose", 0), compress=spec.get("compress", False))
+        cf = mem.cache(vmod.f, cache_validation_callback=cbs[spec.get("cb")])
+        for act in spec["actions"]:
+            a = act["a"]
+            del vmod.CALLS[:]
+            try:
+                if a == "call":
+                    r = {"ok": cf(act["k"])}
+                elif a == "shelve":
+                    r = {"ok": cf.call_and_shelve(act["k"]).get()}
+                elif a == "check":            # check_call_in_cache: a bool, never an exception
+                    r = {"ok": None, "check": bool(cf.check_call_in_cache(act["k"]))}
+                elif a == "mr":               # a MemorizedResult built from the store, then .get()
+                    from joblib.memory import MemorizedResult
+                    ref = MemorizedResult(cf.store_backend, (cf.func_id, cf._get_args_id(act["k"])),
+                                          verbose=spec.get("verbose", 0))
+                    try:
+                        r = {"ok": ref.get(), "mr": True}
+                    except KeyError as e:     # documented: the item is not (any more) in the store
+                        r = {"ok": None, "mr": "KeyError", "msg": str(e)[:120]}
+                elif a == "shelve_clear_call":
+                    ref = cf.call_and_shelve(act["k"])
+                    v1 = ref.get()
+                    ref.clear()
+                    r = {"ok": cf(act["k"]), "first": v1}
+                elif a == "clear":
+                    mem.clear(warn=False)
+                    r = {"ok": None}
+                elif a == "fclear":
+                    cf.clear(warn=False)
+                    r = {"ok": None}
+                elif a == "reduce":
+                    mem.reduce_size(items_limit=act.get("items_limit"), bytes_limit=act.get("bytes_limit"))
+                    r = {"ok": None}
+                elif a == "atime":
+                    c05_shim.pause()
+                    try:
+                        p = os.path.join(LOC, "joblib", "vmod", "f", cf._get_args_id(act["k"]), "output.pkl")
+                        os.utime(p, (act["t"], act["t"]))  # output.pkl: get_items reads its atime
+                    finally:
+                        c05_shim.resume()
+                    r = {"ok": None}
+                else:
+                    r = {"harness_error": "unknown action %r" % a}
+            except Exception as e:  # the outcome of the action, reported
+                r = {"raise": type(e).__name__, "msg": str(e)[:200]}
+            r["computed"] = list(vmod.CALLS)
+            results.append(r)
+    except BaseException as e:  # construction failed
+        results.append({"raise": type(e).__name__, "msg": str(e)[:200], "where": "init"})
+    c05_shim.finished()
+    out = {"results": results, "pid": os.getpid(), "log": c05_shim.STATE["log"]}
+    if spec.get("state"):
+        out["state"] = dump_state()
+    if pre_state is not None:
+        out["pre_state"] = pre_state
+    return out
+
+
+def restore(snapshot):
+    """put the cache directory (and its creation-order journal) back to the snapshot"""
+    import shutil
+    c05_shim.pause()
+    try:
+        shutil.rmtree(LOC, ignore_errors=True)
+        if os.path.isdir(snapshot):
+            shutil.copytree(snapshot, LOC)
+        j = spec.get("journal")
+        if j:
+            if os.path.exists(j):
+                os.unlink(j)
+            if os.path.exists(snapshot + ".journal"):
+                shutil.copy(snapshot + ".journal", j)
+    finally:
+        c05_shim.resume()
+
+
+if spec.get("variants"):
+    # several read-back sessions on the same crashed directory: each runs in a forked child of this
+    # (not yet used) interpreter -- fresh _FUNCTION_HASHES, own pid -- after the directory was restored
+    res = {}
+    for var in spec["variants"]:
+        restore(spec["snapshot"])
+        r, w = os.pipe()
+        pid = os.fork()
+        if pid == 0:
+            os.close(r)
+            sub = dict(spec)
+            sub.update(var)
+            try:
+                o = run_session(sub)
+            except BaseException as e:
+                o = {"harness_error": repr(e), "pid": os.getpid()}
+            data = json.dumps(o).encode()
+            while data:
+                n = os.write(w, data)
+                data = data[n:]
+            os._exit(0)
+        os.close(w)
+        chunks = []
+        while True:
+            b = os.read(r, 65536)
+            if not b:
+                break
+            chunks.append(b)
+        os.close(r)
+        os.waitpid(pid, 0)
         try:
-            if a == "call":
-                r = {"ok": cf(act["k"])}
-            elif a == "shelve":
-                r = {"ok": cf.call_and_shelve(act["k"]).get()}
-            elif a == "check":            # check_call_in_cache: a bool, never an exception
-                r = {"ok": None, "check": bool(cf.check_call_in_cache(act["k"]))}
-            elif a == "mr":               # a MemorizedResult built from the store, then .get()
-                from joblib.memory import MemorizedResult
-                ref = MemorizedResult(cf.store_backend, (cf.func_id, cf._get_args_id(act["k"])))
-                try:
-                    r = {"ok": ref.get(), "mr": True}
-                except KeyError as e:     # documented: the item is not (any more) in the store
-                    r = {"ok": None, "mr": "KeyError", "msg": str(e)[:120]}
-            elif a == "shelve_clear_call":
-                ref = cf.call_and_shelve(act["k"])
-                v1 = ref.get()
-                ref.clear()
-                r = {"ok": cf(act["k"]), "first": v1}
-            elif a == "clear":
-                mem.clear(warn=False)
-                r = {"ok": None}
-            elif a == "fclear":
-                cf.clear(warn=False)
-                r = {"ok": None}
-            elif a == "reduce":
-                mem.reduce_size(items_limit=act.get("items_limit"), bytes_limit=act.get("bytes_limit"))
-                r = {"ok": None}
-            elif a == "atime":
-                c05_shim.pause()
-                try:
-                    p = os.path.join(LOC, "joblib", "vmod", "f", cf._get_args_id(act["k"]), "output.pkl")
-                    os.utime(p, (act["t"], act["t"]))  # output.pkl: get_items reads its atime
-                finally:
-                    c05_shim.resume()
-                r = {"ok": None}
-            else:
-                r = {"harness_error": "unknown action %r" % a}
-        except Exception as e:  # the outcome of the action, reported
-            r = {"raise": type(e).__name__, "msg": str(e)[:200]}
-        r["computed"] = list(vmod.CALLS)
-        results.append(r)
-except BaseException as e:  # construction failed
-    results.append({"raise": type(e).__name__, "msg": str(e)[:200], "where": "init"})
-c05_shim.finished()
-out = {"results": results, "pid": os.getpid(), "log": c05_shim.STATE["log"]}
-if spec.get("state"):
-    out["state"] = dump_state()
-if pre_state is not None:
-    out["pre_state"] = pre_state
-sys.stdout.write(json.dumps(out) + "\n")
-sys.stdout.flush()
+            res[var["tag"]] = json.loads(b"".join(chunks).decode())
+        except ValueError:
+            res[var["tag"]] = {"harness_error": "read-back child died", "pid": pid}
+    sys.stdout.write(json.dumps({"variants": res}) + "\n")
+    sys.stdout.flush()
+else:
+    sys.stdout.write(json.dumps(run_session(spec)) + "\n")
+    sys.stdout.flush()
